@@ -678,3 +678,19 @@ func PlainLoad[T any](p *T) T {
 	s.logOp(Op{Kind: OpPlainLoad, Obj: p})
 	return v
 }
+
+// Touch records a plain access to a shared variable without being a scheduling point: pargen inserts it in front
+// of every statement of the Work methods that reads or writes one of Work's ordinary fields (todo, added,
+// waiting, running, f), so that the runner's happens-before checker can verify the lock discipline that the
+// model's "one critical section = one step" rests on.
+func Touch[T any](p *T, write bool) {
+	s := cur
+	if s.self() == nil {
+		return
+	}
+	k := OpPlainLoad
+	if write {
+		k = OpPlainStore
+	}
+	s.logOp(Op{Kind: k, Obj: p, Tag: "touch"})
+}
